@@ -314,11 +314,12 @@ def op_get_opcode(vt, pypy):
     return run
 
 
-def op_get_opcode_module(vt):
+def op_get_opcode_module(vt, variant=None):
     def run():
         from xdis.op_imports import get_opcode_module
 
-        return _table_digest(get_opcode_module(vt + (0, "final")))
+        opc = get_opcode_module(vt + (0, "final")) if variant is None else get_opcode_module(vt, variant)
+        return [opc.__name__, _table_digest(opc)]
 
     return run
 
@@ -331,11 +332,11 @@ def _sample_fn(a, b=2):
         return None
 
 
-def op_std_api(vt):
+def op_std_api(vt, variant=None):
     def run():
         from xdis.std import make_std_api
 
-        api = make_std_api(vt)
+        api = make_std_api(vt, variant) if variant else make_std_api(vt)
         res = [sorted(api.opmap.items()), list(api.opname), sorted(api.hasconst), api.HAVE_ARGUMENT]
         if vt == sys.version_info[:2]:
             res.append([[i.opname, i.arg, mask(repr(i.argval))[:40], i.offset, i.starts_line, bool(i.is_jump_target)] for i in api.get_instructions(_sample_fn)])
@@ -453,6 +454,17 @@ def build_ops(plan, workdir):
                     f.write(unhx(rec["pyc"]))
                 rich.setdefault(v, []).append(p)
     plan["rich"] = rich
+    # a file whose line numbers need more than three digits (listing column widths), compiled by the host itself
+    import importlib.util
+    import marshal
+    import struct as _st
+
+    src = "a = 1\n" + "\n" * 1234 + "def f(p):\n    return p + a\n" + "\n" * 9000 + "b = f(2)\n"
+    co = compile(src, "<bigline>", "exec")
+    bl = os.path.join(workdir, "bigline-host.pyc")
+    with open(bl, "wb") as f:
+        f.write(importlib.util.MAGIC_NUMBER + _st.pack("<III", 0, 0x5F000000, len(src)) + marshal.dumps(co))
+    plan["bigline"] = bl
     for idx, rec in common.read_dataset(plan["headers"]["3.9"]):
         if idx >= 0 and rec["id"] == "real:CHECKED_HASH":
             p = os.path.join(workdir, "hash-3.9.pyc")
@@ -471,8 +483,13 @@ def build_ops(plan, workdir):
         ops.append(("load:" + fam, op_load(files[fam])))
     for vt, pypy in (((2, 7), False), ((2, 7), True), ((3, 6), False), ((3, 8), False), ((3, 8), True), ((3, 10), False), ((3, 12), False), ((3, 13), False), ((1, 5), False)):
         ops.append(("get_opcode:%d.%d%s" % (vt[0], vt[1], "pypy" if pypy else ""), op_get_opcode(vt, pypy)))
-    for vt in ((2, 4), (3, 5), (3, 9), (3, 11)):
+    for vt in ((2, 4), (3, 5), (3, 9), (3, 11), (2, 7), (3, 8)):
         ops.append(("get_opcode_module:%d.%d" % vt, op_get_opcode_module(vt)))
+    # every (version, variant)-parameterised entry point with both variants of one version
+    for vt in ((2, 7), (3, 8)):
+        ops.append(("get_opcode_module:%d.%dpypy" % vt, op_get_opcode_module(vt, "pypy")))
+        ops.append(("make_std_api:%d.%dpypy" % vt, op_std_api(vt, "pypy")))
+    ops.append(("make_std_api:3.8", op_std_api((3, 8))))
     for vt in ((2, 7), (3, 4), (3, 7), (3, 11), sys.version_info[:2], (3, 13)):
         ops.append(("make_std_api:%d.%d" % tuple(vt), op_std_api(tuple(vt))))
     for w in ("tuple", "bigint", "text"):
@@ -485,6 +502,7 @@ def build_ops(plan, workdir):
             ops.append(("disasm-rich:%s:%s" % (v, os.path.basename(p).split("-")[0]), op_disasm(p, "classic")))
             if p == plan["rich"][v][0] or not quick:
                 ops.append(("decode-rich:%s:%s" % (v, os.path.basename(p).split("-")[0]), op_decode(p)))
+    ops.append(("disasm-bigline:host:classic", op_disasm(plan["bigline"], "classic")))
     # same version, different variant (CPython / PyPy tables share a version tuple): extended listings of both
     for fam, pat in (("2.7pypy", "bytecode_2.7pypy/*.pyc"), ("pypy37", "bytecode_pypy37/*.pyc"), ("3.7", "bytecode_3.7/*.pyc"),
                      ("pypy38", "bytecode_pypy38/*.pyc"), ("pypy36", "bytecode_pypy36/*.pyc"), ("3.6", "bytecode_3.6/*.pyc")):
@@ -504,6 +522,14 @@ def build_ops(plan, workdir):
 _OPS = {}
 
 
+def _safe(name):
+    """an operation that raises is an outcome like any other (sameness is what is judged here)"""
+    try:
+        return _OPS[name]()
+    except Exception as e:
+        return ["raises", type(e).__name__, mask(str(e))[:160]]
+
+
 def execute(task):
     """runs in a freshly forked child: replay `history`, then `op` twice"""
     history, opname = task[0], task[1]
@@ -512,13 +538,13 @@ def execute(task):
     out = {"history": history, "op": opname}
     try:
         for h in history:
-            _OPS[h]()
-        d1 = _OPS[opname]()
+            _safe(h)
+        d1 = _safe(opname)
         if want_state:
             h1, per = state_hash(canon_state())
         else:
             h1, per = "not-hashed", {}
-        d2 = _OPS[opname]()
+        d2 = _safe(opname)
         out.update({"d1": d1, "d2": d2, "state": h1, "per_module": per, "sink_reads": sum(s.reads for s in _SINKS)})
     except BaseException as e:  # noqa
         import traceback
@@ -637,7 +663,7 @@ def run_case(case, ctx):
             fix = True
         # stateless sweep: ordered pairs (a, b) executed regardless of state merging, so that history dependence
         # through state the hash does not cover (stdlib caches, C-level state) is still exercised at depth 2
-        suspects = [n for n in names if n.startswith(("disasm-rich:", "disasm-variant:", "decode-rich:"))] + ["load:2.5dropbox", "load:corrupt", "load:3.12", "load:2.7pypy", "disasm:3.8:extended", "disasm:2.7:xasm",
+        suspects = [n for n in names if n.startswith(("disasm-rich:", "disasm-variant:", "decode-rich:", "disasm-bigline:")) or n.endswith("pypy") or n in ("get_opcode_module:2.7", "get_opcode_module:3.8", "make_std_api:3.8")] + ["load:2.5dropbox", "load:corrupt", "load:3.12", "load:2.7pypy", "disasm:3.8:extended", "disasm:2.7:xasm",
                     "make_std_api:2.7", "marsh.loads:py27code", "get_opcode:2.7pypy"]
         firsts = names if tier == "thorough" else [n for n in suspects if n in names]
         done = set((tuple(e[0]), e[1]) for e in edges)
